@@ -60,7 +60,7 @@ def natkey(s):
 def snapshot(d):
     rw = G.RawWorld(d)
     snap = {"exists": {f: f in rw.h for f in G.FILES}, "dig": {}, "extra": {}, "slots": {}, "ident": {}, "status": {},
-            "flags": {}, "root": {}, "allcoll": {}, "keys": {}}
+            "flags": {}, "root": {}, "allcoll": {}, "keys": {}, "sym": {}}
     try:
         for f in G.FILES:
             snap["flags"][f] = rw.graph_flags(f)
@@ -68,6 +68,7 @@ def snapshot(d):
             for q in PROBES:
                 st, f1, o, slots = rw.walk(f, q)
                 snap["status"][(f, q)] = st
+                snap["sym"][(f, q)] = rw.last_sym
                 snap["slots"][(f, q)] = slots
                 snap["ident"][(f, q)] = rw.ident(f1, o) if st == "ok" else None
                 dg = rw.digest(f, q)
@@ -203,6 +204,24 @@ def oracle_step(d, op, outcome, S0, S1, listing, iscool):
             fails.append(({"rule": "R2 frame: a path outside the destination changed" if ok else "R2 frame: a failed operation changed a path",
                            "file": f, "path": q, "before": _brief(before), "after": _brief(after)}, sig))
 
+    # R0 a well-formed request is carried out: the source is a collection reached without crossing a
+    # soft/external link, the destination name is free and its parent either exists (again without
+    # crossing a link) or is missing altogether, hard links stay inside one file, no overwrite
+    if kind in ("cp", "mv", "ln", "lns") and not ok:
+        sf, sp, df, dp = op["sf"], G.pstr(G.comps(op["sp"])), op["df"], G.pstr(G.comps(op["dp"]))
+        par = G.pstr(G.comps(dp)[:-1])
+        pre = (S0["dig"].get((sf, sp)) is not None and not S0["sym"].get((sf, sp), True)
+               and G.comps(dp) and S0["status"].get((df, dp)) == "missing"
+               and (par, S0["status"].get((df, par)), S0["sym"].get((df, par))) in
+                   ((par, "ok", False), ("/a", "missing", False), ("/c2", "missing", False))
+               and not op.get("ow") and (kind != "ln" or sf == df)
+               and not (kind == "mv" and sf == df and not G.comps(sp))
+               and (S0["exists"][df] or sf != df))
+        if pre and S0["status"].get((df, par)) == "ok" and S0["keys"].get((df, par)) is None:
+            pre = False       # the parent is a dataset
+        if pre:
+            fails.append(({"rule": "R0 a well-formed operation was refused", "outcome": outcome, "src": [sf, sp], "dst": [df, dp]}, None))
+
     # R1 destination reads as the source
     if ok and kind in ("cp", "mv", "ln", "lns"):
         sf, sp, df, dp = op["sf"], G.pstr(G.comps(op["sp"])), op["df"], G.pstr(G.comps(op["dp"]))
@@ -232,6 +251,8 @@ def oracle_step(d, op, outcome, S0, S1, listing, iscool):
                     if api != api_expected(k):
                         fails.append(({"rule": "R1 destination does not read as the source through cooler.Cooler", "dst": [df, dp],
                                        "got": api, "expected_stamp": k}, None))
+            if kind == "cp" and S1["ident"][(df, dp)] is not None and S1["ident"][(df, dp)] == S1["ident"].get((sf, sp)):
+                fails.append(({"rule": "R1 a copy shares its object with the source", "dst": [df, dp], "src": [sf, sp]}, None))
             if kind == "ln" and S1["ident"][(df, dp)] != S1["ident"].get((sf, sp)):
                 fails.append(({"rule": "R1 hard link is not the same object", "dst": [df, dp], "src": [sf, sp]}, None))
             if kind in ("cp", "ln", "lns") and trunc is None:
@@ -358,6 +379,9 @@ def gen_op(rng, S, step, stream):
     if r < 0.32:
         f, q = rng.choice(colls)
         tgt = rng.choice(["/", q])
+        if S["dig"].get((f, tgt)) is None and S["status"].get((f, tgt)) == "ok" and rng.random() < 0.5:
+            # a group that is not a collection gets some other format tag (as multi-resolution / single-cell roots have)
+            return {"op": "setattr", "f": f, "p": tgt, "key": "format", "val": rng.choice(["HDF5::MCOOL", "HDF5::SCOOL"])}
         return {"op": "setattr", "f": f, "p": tgt, "key": rng.choice(["note", "lab"]), "val": rng.choice(["keep me", 7, "x"])}
     kind = rng.choice(["cp", "cp", "cp", "mv", "mv", "ln", "ln", "lns", "lns", "lns"])
     if stream == "missing" and rng.random() < 0.6:
@@ -509,6 +533,8 @@ def corpus():
         ("copy of root into itself, nested", [c(A, "/", 1), o("cp", A, "/", A, "/c2/y"), o("cp", A, "/c2", A, "/c10")]),
         ("re-create over links", [c(A, "/c10", 1), o("lns", A, "/c10", A, "/c2"), c(A, "/c2/y", 2), c(A, "/c2", 3), o("ln", A, "/c10", A, "/c2/y")]),
         ("re-create replaces nested, w truncates", [c(A, "/c2", 1), c(A, "/c2/y", 2), c(A, "/", 3), c(A, "/c2", 4), c(A, "/c10", 5, "w")]),
+        ("a group tagged with another format is not a collection",
+         [c(A, "/c2", 1), {"op": "setattr", "f": A, "p": "/", "key": "format", "val": "HDF5::MCOOL"}, o("cp", A, "/c2", A, "/c10")]),
         ("unrelated attribute survives", [c(A, "/", 1), {"op": "setattr", "f": A, "p": "/", "key": "note", "val": "keep me"}, c(A, "/c2", 2), c(A, "/", 3), o("cp", A, "/c2", A, "/c10")]),
         ("missing sources", [c(A, "/c2", 1), o("cp", A, "/nope", A, "/c10"), o("mv", A, "/nope", A, "/c10"), o("ln", A, "/nope", A, "/c10"), o("cp", A, "/nope", B, "/c10"), o("cp", B, "/c2", A, "/c10")]),
         ("cli", [c(A, "/c2", 1), o("cp", A, "/c2", A, "/c10", via="cli"), o("mv", A, "/c10", A, "/c2/y", via="cli"), o("ln", A, "/c2", B, "/c2", via="cli"), o("lns", A, "/c2", B, "/c2", via="cli"), o("ln", A, "/c2", A, "/c10", via="cli", s1=False, s2=False)]),
